@@ -241,6 +241,8 @@ class FileDataPdu(AbstractPduBase):
         data = data[:end_of_data]
         current_idx = file_data_packet.pdu_header.header_len
         if file_data_packet.pdu_header.segment_metadata_flag:
+            if current_idx + 1 > len(data):
+                raise BytesTooShortError(current_idx + 1, len(data))
             rec_cont_state = RecordContinuationState((data[current_idx] & 0xC0) >> 6)
             segment_metadata_len = data[current_idx] & 0x3F
             current_idx += 1
